@@ -599,6 +599,91 @@ theorem fut_submit_no_zero_leg (a : R) (isBuy : Bool) (e : Effect) (posQty oldQt
 example : futSubmit (5/2) true .open_ 0 0 0 = [⟨true, .open_, 2⟩] ∧ futSubmit (1/2) true .open_ 0 0 0 = [] := by
   constructor <;> decide +kernel
 
+/-! ### order_target_portfolio -/
+
+/-- **a closing order of `order_target_portfolio` never exceeds the holding of its entry** (repaired: rounding the difference
+to whole lots with `round` used to ask for 200 shares of a 150-share holding) and is a sale -/
+theorem otp_sells_within_holding (value : R) (items : List OtpItem) (i : Nat) :
+    ∀ x ∈ (otpSplit value items i).1, x.1.isBuy = false ∧ ∃ it ∈ items, x.1.qty ≤ it.cur := by
+  induction items generalizing i with
+  | nil => intro x hx; simp [otpSplit] at hx
+  | cons it rest ih =>
+    intro x hx
+    simp only [otpSplit] at hx
+    split at hx
+    · obtain ⟨h1, it', hit', h2⟩ := ih (i + 1) x hx
+      exact ⟨h1, it', List.mem_cons_of_mem _ hit', h2⟩
+    · split at hx
+      · obtain ⟨h1, it', hit', h2⟩ := ih (i + 1) x hx
+        exact ⟨h1, it', List.mem_cons_of_mem _ hit', h2⟩
+      · simp only [List.mem_cons] at hx
+        rcases hx with hx | hx
+        · subst hx
+          exact ⟨rfl, it, List.mem_cons_self, Int.min_le_right _ _⟩
+        · obtain ⟨h1, it', hit', h2⟩ := ih (i + 1) x hx
+          exact ⟨h1, it', List.mem_cons_of_mem _ hit', h2⟩
+
+/-- every opening order is a buy of a non-zero quantity -/
+theorem otp_buys_nonzero (costV : R → R) (est : R) (ws : List (Nat × OtpItem × Int)) (hws : ∀ w ∈ ws, w.2.2 ≠ 0) :
+    ∀ o ∈ otpBuys costV est ws, o.isBuy = true ∧ o.qty ≠ 0 := by
+  induction ws generalizing est with
+  | nil => intro o ho; simp [otpBuys] at ho
+  | cons w rest ih =>
+    obtain ⟨i, it, d⟩ := w
+    intro o ho
+    have hrest : ∀ w ∈ rest, w.2.2 ≠ 0 := fun w hw => hws w (List.mem_cons_of_mem _ hw)
+    simp only [otpBuys] at ho
+    split at ho
+    · split at ho
+      · exact ih est hrest o ho
+      · rename_i hd2
+        simp only [List.mem_cons] at ho
+        rcases ho with ho | ho
+        · subst ho; exact ⟨rfl, hd2⟩
+        · exact ih _ hrest o ho
+    · simp only [List.mem_cons] at ho
+      rcases ho with ho | ho
+      · subst ho; exact ⟨rfl, hws _ List.mem_cons_self⟩
+      · exact ih _ hrest o ho
+
+/-- the entries waiting to buy carry a positive rounded difference -/
+theorem otp_waiting_positive (value : R) (items : List OtpItem) (i : Nat) :
+    ∀ w ∈ (otpSplit value items i).2, 0 < w.2.2 := by
+  induction items generalizing i with
+  | nil => intro w hw; simp [otpSplit] at hw
+  | cons it rest ih =>
+    intro w hw
+    simp only [otpSplit] at hw
+    split at hw
+    · exact ih (i + 1) w hw
+    · split at hw
+      · rename_i hpos
+        simp only [List.mem_cons] at hw
+        rcases hw with hw | hw
+        · subst hw; exact hpos
+        · exact ih (i + 1) w hw
+      · exact ih (i + 1) w hw
+
+/-- **sells first, then buys; no order of quantity zero on the buying side; no sale beyond a holding** -/
+theorem otp_shape (value cash : R) (items : List OtpItem) (costV : R → R) (sellCost : Bool → Int → R → R) :
+    ∃ sells buys, orderTargetPortfolio value cash items costV sellCost = sells ++ buys ∧
+      (∀ o ∈ sells, o.isBuy = false ∧ ∃ it ∈ items, o.qty ≤ it.cur) ∧ (∀ o ∈ buys, o.isBuy = true ∧ o.qty ≠ 0) := by
+  unfold orderTargetPortfolio
+  simp only
+  refine ⟨_, _, rfl, ?_, ?_⟩
+  · intro o ho
+    simp only [List.mem_map] at ho
+    obtain ⟨x, hx, rfl⟩ := ho
+    exact otp_sells_within_holding _ items 0 x hx
+  · apply otp_buys_nonzero
+    intro w hw
+    exact Int.ne_of_gt (otp_waiting_positive _ items 0 w hw)
+
+/-- non-vacuity: 150 shares held, target 0: the difference −150 rounds to −200 (half-even on 1.5 lots); the order is for the 150 held -/
+example : (otpSplit 100000 [(⟨⟨false, 100⟩, 0, 10, 10, 10, true, true, 150, true⟩ : OtpItem)] 0).1.map (fun x => x.1.qty) = [150] ∧
+    roundOrderQtyRound ⟨false, 100⟩ (-150) = -200 := by
+  constructor <;> decide +kernel
+
 /-- non-vacuity: 10 000 at price 12.34 with fee max(5, 0.08 %): 800 shares (800·12.34 + 7.8976 = 9879.90 ≤ 10000; 900 is too much) -/
 example : orderValue ⟨false, 100⟩ 10000 12.34 50000 0 0 (fun a => R.pymax ((a : Rat) * 12.34 * (8/10000)) 5) = some (true, 800) := by
   decide +kernel
